@@ -1190,7 +1190,12 @@ class AstEval:
             # attribute the compiled code to the script file, also when it is compiled from a trigger's context
             filename = self.global_ctx.get_file_path() or self.filename
             code = compile(ast.Module(body=[arg], type_ignores=[]), filename=filename, mode="exec")
+            had_builtins = "__builtins__" in self.global_sym_table
             exec(code, self.global_sym_table, self.sym_table)  # pylint: disable=exec-used
+            if not had_builtins:
+                # exec() adds the builtins module's namespace to the globals; the compiled function
+                # keeps its own reference, and scripts must not get at open(), __import__() etc.
+                self.global_sym_table.pop("__builtins__", None)
 
             func = self.sym_table[arg.name]
             if dec_name == "pyscript_executor":
